@@ -577,6 +577,29 @@ func runCase(id int, kind, expr string, rs *resSpec, projTexts []string, extraTa
 				bad("match-depends-on-result-identity")
 			}
 		}
+		// name and config values rewritten IN PLACE (as the Reader and SetConfig do) with values of
+		// the same length: this Filter must answer like a Filter that never saw the old values
+		if kind == "f" {
+			if fresh, err := benchproc.NewFilter(expr); err == nil {
+				inplace := res.Clone()
+				f.Match(inplace)
+				for _, alt := range [][2]string{{"Foo", "Bar"}, {"Bar", "Baz"}, {"linux", "plan9"}, {"darwin", "netbsd"}, {"p/q", "p/r"}, {"n1", "n2"}} {
+					if string(inplace.Name[:min(len(inplace.Name), len(alt[0]))]) == alt[0] {
+						copy(inplace.Name, alt[1])
+					}
+					for ci := range inplace.Config {
+						if string(inplace.Config[ci].Value) == alt[0] {
+							copy(inplace.Config[ci].Value, alt[1])
+						}
+					}
+				}
+				mi, _ := f.Match(inplace)
+				mf, _ := fresh.Match(inplace.Clone())
+				if testBits(&mi, n) != testBits(&mf, n) || mi.All() != mf.All() || mi.Any() != mf.Any() {
+					bad("match-remembers-a-value-rewritten-in-place")
+				}
+			}
+		}
 		oob := ""
 		for _, i := range []int{-1, n, n + 1, n + 31, n + 32} {
 			oob += b01(m.Test(i))
@@ -1150,7 +1173,8 @@ var streamSizes = []int{1, 33, 65, 70, 2, 0, 32, 64, 96, 100, 5, 31, 97, 3}
 
 // readerStream: the expression is applied IN PLACE to the Reader's reused Result, line after line,
 // without Clone; the kept measurements must equal what a fresh copy of each line gives.
-func readerStream(id *int, expr string) {
+// unitStreamText: consecutive lines of equal length whose units differ
+func unitStreamText() string {
 	var text strings.Builder
 	text.WriteString("goos: linux\n")
 	shapes := [][]string{{"ns/op", "B/op", "MB/s"}, {"ns/op"}, {"widgets", "ns/op", "us/op", "B/op", "allocs/op"}, {"MB/s", "KB/s"}, {"ns/op", "ns/op2", "B/op"}}
@@ -1163,6 +1187,38 @@ func readerStream(id *int, expr string) {
 		}
 		text.WriteString("\n")
 	}
+	return text.String()
+}
+
+// keyStreamText: the Reader rewrites config values and the name IN PLACE; here a value changes to
+// another value of the SAME LENGTH with the opposite verdict for the expressions of keyStreamExprs
+// (goarch amd64/arm64, goos linux/plan9, names Copy/Move, /size=4k/8k, -8/-4), and back.
+const keyStreamText = `goos: linux
+goarch: amd64
+BenchmarkCopy/size=4k-8 1 0 ns/op 1 B/op
+BenchmarkCopy/size=4k-8 1 0 ns/op 1 B/op
+goarch: arm64
+BenchmarkCopy/size=4k-8 1 0 ns/op 1 B/op
+BenchmarkMove/size=4k-8 1 0 ns/op 1 B/op
+BenchmarkMove/size=8k-8 1 0 ns/op 1 B/op
+goos: plan9
+BenchmarkCopy/size=8k-4 1 0 ns/op 1 B/op
+goarch: amd64
+BenchmarkCopy/size=4k-4 1 0 ns/op 1 B/op
+goos: linux
+BenchmarkMove/size=4k-8 1 0 ns/op 1 B/op
+BenchmarkCopy/size=4k-8 1 0 ns/op 1 B/op
+goarch: arm64
+goos: plan9
+BenchmarkCopy/size=4k-8 1 0 ns/op 1 B/op
+`
+
+var keyStreamExprs = []string{"goarch:/^amd/", "-goarch:/^amd/", "goarch:(/^amd/ OR x)", "goarch:(x OR /^arm64$/)", "goos:/^lin/", "-goos:/ux$/",
+	"goos:/^lin/ -goarch:/^arm/", ".name:/^Copy$/", "-.name:/^Co/", ".name:(/^Move$/ OR Copy)", ".fullname:/size=4k/", "-.fullname:/^Copy/",
+	`.fullname:/^Copy\/size=4k-8$/`, "/size:/^4/", "-/size:/^4k$/", "/size:(/^8/ OR x)", "/gomaxprocs:/^8$/", "-/gomaxprocs:/8/",
+	"goarch:/^amd/ OR .name:/^Move$/", "-(goarch:/64$/ .name:/^Copy$/ /size:/4/)", ".unit:ns/op goarch:/^amd/", "goarch:amd64", "-.name:Copy"}
+
+func readerStream(id *int, expr string, text string, tag string) {
 	f, err := benchproc.NewFilter(expr)
 	if err != nil {
 		return
@@ -1175,7 +1231,7 @@ func readerStream(id *int, expr string) {
 	}
 	// pass 1: independent copies of every line
 	var specs []*resSpec
-	rd := benchfmt.NewReader(strings.NewReader(text.String()), "c06stream")
+	rd := benchfmt.NewReader(strings.NewReader(text), "c06stream")
 	for rd.Scan() {
 		res, ok := rd.Result().(*benchfmt.Result)
 		if !ok {
@@ -1192,7 +1248,7 @@ func readerStream(id *int, expr string) {
 	}
 	// pass 2: streaming, filtering the Reader's own Result in place
 	var kept []string
-	rd = benchfmt.NewReader(strings.NewReader(text.String()), "c06stream")
+	rd = benchfmt.NewReader(strings.NewReader(text), "c06stream")
 	for rd.Scan() {
 		res, ok := rd.Result().(*benchfmt.Result)
 		if !ok {
@@ -1213,7 +1269,7 @@ func readerStream(id *int, expr string) {
 		if j < len(kept) {
 			expectKept = &kept[j]
 		}
-		if runCase(*id, "f", expr, rs, nil, []string{"corpus", "readerstream"}) {
+		if runCase(*id, "f", expr, rs, nil, []string{"corpus", "readerstream", tag}) {
 			*id++
 		}
 		expectKept = nil
@@ -1319,8 +1375,12 @@ func main() {
 		}
 		runStream(&id, e, stream, []string{"corpus", "stream"})
 	}
+	ut := unitStreamText()
 	for _, e := range readerExprs {
-		readerStream(&id, e)
+		readerStream(&id, e, ut, "units")
+	}
+	for _, e := range keyStreamExprs {
+		readerStream(&id, e, keyStreamText, "keys")
 	}
 	// hx.NewRand(salt) starts at seed*G+salt+1 and steps by G, so the streams of seeds s and s+1
 	// are the same stream shifted by one draw and the generated cases re-align after the first
